@@ -221,7 +221,11 @@ class Env:
         """derive and discard siblings from q: what one continuation does must not influence another (the guards
         and the rendering of a builder are functions of its own ancestry chain)"""
         P = self.P
-        s = self.src
+        # fresh argument objects: the library may write an automatic alias into a table / subquery that is passed in
+        # (the one side effect C01 permits), which must not reach the objects the program under test uses
+        s = {k: (P.Table(SOURCES[k][1], alias=SOURCES[k][2] or None, schema=SOURCES[k][3] or None) if SOURCES[k][0] == "table" else v)
+             for k, v in self.src.items()}
+        s["Q6"] = self.Q.from_(P.Table("t6")).select("a", "b", "c").as_("q6")
         for f in (lambda: q.join(s["T2"]).on(s["T2"].a == s["T2"].b), lambda: q.join(s["T5"]).cross(), lambda: q.join(s["A3"]).using("a"),
                   lambda: q.join(s["Q6"]).on(s["Q6"].a == s["Q6"].b), lambda: q.from_(s["T5"]), lambda: q.from_(s["C7"]),
                   lambda: q.where(s["T2"].a == 1), lambda: q.select(s["T1"].z), lambda: q.select("*"), lambda: q.with_(self.Q.from_(P.Table("t7")).select("a"), "c7"),
